@@ -139,8 +139,16 @@ def cut_cases(r, quick):
 
 
 def length_edge_cases(r, quick):
-    """index_size / header_size pointing exactly at, one before and one past the real end."""
+    """index_size / header_size pointing exactly at, one before and one past the real end;
+    structurally valid headers whose declared sizes are huge but representable."""
     out = []
+    for sizes in ([1 << 62], [(1 << 62) - 1, 1 << 61], [1 << 61, 1 << 61, 1 << 60], [(1 << 63) // 100 + 1], [(1 << 63) - 4096]):
+        for comp in (0, 2):
+            for cht in range(4):   # every chunk checksum type: tools that compare two files insist on equal types
+                cds = DIGEST_SIZE[cht]
+                chunks = [(bytes(cds), None, 0, 0)] + [(r.randbytes(cds), None, s, s if comp == 0 else 7) for s in sizes]
+                out.append(("edge:huge-valid-sizes:%s:h%d" % (",".join(str(s.bit_length()) for s in sizes), cht),
+                            zckref.build(hash_type=1, flags=0, comp_type=comp, chunk_hash_type=cht, chunks=chunks, body=r.randbytes(300), data_digest=r.randbytes(32))))
     for flags in (0, 2, 4):
         kw = base_kw(r, 3, 0, flags)
         full = zckref.build(**kw)
